@@ -1,3 +1,4 @@
+import TruthModel.Props.C18Msg
 import TruthModel.Model.Offsets
 import TruthModel.Lemmas.Abi
 import TruthModel.Props.C03
